@@ -1,6 +1,6 @@
 (** C02 — Session delivery: no event lost, duplicated or reordered within a writer. *)
 From Coq Require Import List ZArith NArith Bool Sorted.
-From BL Require Import Base.Bytes Reader.Entry Queue.QueueModel Queue.QueueInv Session.SessionModel Session.SessionInv Session.SessionProps Session.SessionRemoval Gen.SrcFacts.
+From BL Require Import Base.Bytes Reader.Entry Queue.QueueModel Queue.QueueInv Session.SessionModel Session.SessionInv Session.SessionProps Session.SessionRemoval Session.SessionReplace Gen.SrcFacts.
 Import ListNotations.
 Local Open Scope Z_scope.
 
@@ -70,6 +70,41 @@ Proof.
   exact replacement_channel_is_last.
 Qed.
 Print Assumptions C02_replacement_channel_is_last.
+
+(** (2d) order across a queue replacement, the missing link: a channel that is closed when a consume starts - the queue a writer abandoned
+    for a larger one, or the queue of a destroyed writer - is, for EVERY history before and EVERY schedule of lock-free writer actions
+    inside that consume, found closed, marked for removal at its own position in the polling order, and has handed out every byte ever
+    committed to it when the channel loop ends; and its uid is not in the session afterwards. With (2c): all events a writer committed to
+    the abandoned queue are written by the first consume after the replacement, at a position before its replacement channel (which is
+    later in the polling order), and from the second consume on only the replacement exists - the writer's events are never reordered
+    by a replacement. (The per-position attribution of the output pieces is by the definition of [consume_loop]: writes ++ ws.) *)
+Theorem C02_abandoned_queue_drained_by_next_consume : forall cs ops plans, Forall sop_rm ops ->
+  let s := fst (srun SrcFacts.sess_fence_after_closed_test (sess_init cs) ops) in
+  forall i c, nth_error (channels s) i = Some c -> ch_owner c = None ->
+  exists c', nth_error (consume_marked s plans) i = Some c' /\ ch_uid c' = ch_uid c /\
+             In c' (consume_removed s plans) /\ all_delivered (ch_q c').
+Proof.
+  generalize (eq_refl : SrcFacts.sess_fence_after_closed_test = true). generalize SrcFacts.sess_fence_after_closed_test. intros b_ ->.
+  generalize (eq_refl : SrcFacts.sess_consume_order = true). generalize SrcFacts.sess_consume_order. intros b2 ->.
+  exact abandoned_queue_drained_by_next_consume.
+Qed.
+Print Assumptions C02_abandoned_queue_drained_by_next_consume.
+Theorem C02_abandoned_queue_gone_after_next_consume : forall cs ops plans, Forall sop_rm ops ->
+  let s := fst (srun SrcFacts.sess_fence_after_closed_test (sess_init cs) ops) in
+  forall c, In c (channels s) -> ch_owner c = None ->
+  ~ In (ch_uid c) (map ch_uid (channels (fst (fst (consume SrcFacts.sess_fence_after_closed_test s plans))))).
+Proof.
+  generalize (eq_refl : SrcFacts.sess_fence_after_closed_test = true). generalize SrcFacts.sess_fence_after_closed_test. intros b_ ->.
+  generalize (eq_refl : SrcFacts.writer_replace_shape = true). generalize SrcFacts.writer_replace_shape. intros b1 ->.
+  exact abandoned_queue_gone_after_next_consume.
+Qed.
+Print Assumptions C02_abandoned_queue_gone_after_next_consume.
+Example C02_replacement_nonvacuous :
+  let s := fst (srun true (sess_init default_cs) rm_ops) in
+  map (fun c => match ch_owner c with None => true | _ => false end) (channels s) = [true; true; false] /\
+  map is_reset (consume_marked s []) = [true; true; false] /\
+  map ch_uid (channels (fst (fst (consume true s [])))) = [2%N].
+Proof. exact replace_nonvacuous. Qed.
 Example C02_removal_nonvacuous :
   Forall sop_rm rm_ops /\
   let s := fst (srun true (sess_init default_cs) rm_ops) in
